@@ -114,7 +114,7 @@ func init() {
 	register("C17", &CheckSpec{Level: "model_checking", Assumptions: append([]string{"probes are inserted by name at sendFileState.nextChunkToSend / markChunkDone / trySendEnd; if one of them no longer exists the check reports an infrastructure error instead of passing"}, xferAssumptions...), Parts: []*PartSpec{c17}})
 	register("C03", &CheckSpec{Level: "model_checking", Assumptions: xferAssumptions, Parts: []*PartSpec{xferPart("c03", "c03", 16)}})
 	register("C01", &CheckSpec{Level: "model_checking", Assumptions: xferAssumptions, Parts: []*PartSpec{xferPart("c01", "c01", 16)}})
-	register("C02", &CheckSpec{Level: "fault_enumeration", Assumptions: append([]string{"faults are injected at byte positions of the vquic streams as written by the real code; one fault per execution"}, xferAssumptions...), Parts: []*PartSpec{xferPart("c02", "c02", 16)}})
+	register("C02", &CheckSpec{Level: "fault_enumeration", Assumptions: append([]string{"faults are injected at byte positions of the vquic streams as written by the real code; one fault per execution"}, xferAssumptions...), Parts: []*PartSpec{xferPart("c02", "c02", 16), xferPart("receiver-only", "c02r", 16)}})
 }
 
 func init() {
